@@ -11,6 +11,8 @@ import (
 	"math/rand"
 	"os"
 	"sync"
+	"sync/atomic"
+	"time"
 
 	"github.com/flanglet/kanzi-go/v2/bitstream"
 	"kzverif/fio"
@@ -61,7 +63,7 @@ func (v *bitVec) bytes(off, nbits int) []byte {
 func runBits(p bitProg) tr.Ev {
 	ev := tr.Ev{"ev": "BITPROG", "id": p.ID, "src": p.Src, "bufW": p.BufW, "bufR": p.BufR, "fill": p.Fill, "nops": len(p.Ops),
 		"sizes": []int{}, "wcount": []int{}, "rcount": []int{}, "wPanic": "", "rPanic": "", "image": false, "values": false,
-		"closedRefusesW": false, "closedRefusesR": false, "closeErr": "", "firstBad": ""}
+		"closedRefusesW": false, "closedRefusesR": false, "closeErr": "", "firstBad": "", "cutOK": true}
 	rnd := rand.New(rand.NewSource(p.Seed))
 	vec := &bitVec{}
 	sink := &fio.Sink{}
@@ -224,7 +226,98 @@ func runBits(p bitProg) tr.Ev {
 	}()
 	ev["rcount"] = rcount
 	ev["values"] = valuesOK
+	// truncated source (C09 / C03 at the level of the bit stream): the same reads on the image cut by a few bytes. Every operation that
+	// lies entirely before the cut returns the written bits; the first operation that needs a bit beyond the cut must end in the
+	// end-of-stream panic - if it returns, a truncated stream goes unnoticed (or the caller spins on phantom bits).
+	if ev["rPanic"] == "" && valuesOK && len(want) > 0 {
+		cuts := []int{1 + rnd.Intn(8), 8, 1 + rnd.Intn(24), 1 + rnd.Intn(len(want))}
+		for _, cut := range cuts {
+			if cut > len(want) {
+				continue
+			}
+			var detail string
+			if !guardFor(10*time.Second, func() { detail = cutPass(want, cut, ops, vec, p) }) {
+				detail = fmt.Sprintf("cut %d: the read program did not terminate", cut)
+			}
+			if detail != "" {
+				ev["cutOK"] = false
+				ev["firstBad"] = detail
+				break
+			}
+		}
+	}
 	return ev
+}
+
+func guardFor(d time.Duration, f func()) bool {
+	done := make(chan struct{})
+	go func() {
+		defer close(done)
+		f()
+	}()
+	select {
+	case <-done:
+		return true
+	case <-time.After(d):
+		atomic.AddInt32(&hangCount, 1)
+		return false
+	}
+}
+
+// cutPass reads the program from the image without its last `cut` bytes; returns "" when the end of the data is met as required
+func cutPass(want []byte, cut int, ops []bitOp, vec *bitVec, p bitProg) (detail string) {
+	data := want[:len(want)-cut]
+	availBits := 8 * len(data)
+	src := &fio.Source{Data: data, Chunks: p.Chunks}
+	ibs, err := bitstream.NewDefaultInputBitStream(src, p.BufR)
+	if err != nil {
+		return ""
+	}
+	off := 0
+	k := 0
+	crossing := false
+	defer func() {
+		if q := recover(); q != nil {
+			if !crossing {
+				detail = fmt.Sprintf("cut %d: read op %d (%s %d) at bit %d panics (%v) although %d bits are available", cut, k, ops[k].Op, ops[k].N, off, q, availBits)
+			}
+		}
+	}()
+	for k = 0; k < len(ops); k++ {
+		op := ops[k]
+		size := op.N
+		if op.Op == "bit" {
+			size = 1
+		}
+		crossing = off+size > availBits
+		ok := true
+		switch op.Op {
+		case "bit":
+			v := uint64(ibs.ReadBit())
+			ok = crossing || v == vec.get(off, 1)
+		case "bits":
+			v := ibs.ReadBits(uint(op.N))
+			ok = crossing || v == vec.get(off, op.N)
+		case "array":
+			buf := make([]byte, (op.N+7)/8)
+			ibs.ReadArray(buf, uint(op.N))
+			if !crossing {
+				exp := vec.bytes(off, op.N)
+				if op.N%8 != 0 {
+					buf[len(buf)-1] &= byte(0xFF) << uint(8-op.N%8)
+				}
+				ok = string(buf) == string(exp)
+			}
+		}
+		if crossing {
+			return fmt.Sprintf("cut %d: read op %d (%s %d) at bit %d returned although only %d bits exist", cut, k, op.Op, op.N, off, availBits)
+		}
+		if !ok {
+			return fmt.Sprintf("cut %d: read op %d (%s %d) at bit %d returned wrong bits before the cut", cut, k, op.Op, op.N, off)
+		}
+		off += size
+	}
+	return ""
 }
 
 func randomProg(rnd *rand.Rand, id int, thorough bool) bitProg {
@@ -282,7 +375,11 @@ func cmdBits(args []string) int {
 			if json.Unmarshal(sc.Bytes(), &p) != nil {
 				return 2
 			}
-			p.Seed = rnd.Int63()
+			if p.Seed == 0 {
+				p.Seed = rnd.Int63()
+			} else {
+				rnd.Int63()
+			}
 			p.ID = len(all)
 			all = append(all, p)
 		}
@@ -303,7 +400,7 @@ func cmdBits(args []string) int {
 			if !guard(func() { evs[i] = runBits(all[i]) }) {
 				evs[i] = tr.Ev{"ev": "BITPROG", "id": all[i].ID, "src": all[i].Src, "bufW": all[i].BufW, "bufR": all[i].BufR, "fill": all[i].Fill, "nops": len(all[i].Ops),
 					"sizes": []int{}, "wcount": []int{}, "rcount": []int{}, "wPanic": "hang", "rPanic": "", "image": false, "values": false,
-					"closedRefusesW": false, "closedRefusesR": false, "closeErr": "", "firstBad": "the program did not terminate"}
+					"closedRefusesW": false, "closedRefusesR": false, "closeErr": "", "firstBad": "the program did not terminate", "cutOK": true}
 			}
 			b, _ := json.Marshal(all[i])
 			evs[i]["desc"] = string(b)
